@@ -3,4 +3,4 @@ import DmrVerif.Driver.Pdu
 
 /-! model driver for property C03 -/
 
-def main : IO Unit := Dmr.Driver.runMain [Dmr.Driver.pduOp]
+def main : IO Unit := Dmr.Driver.runMain [Dmr.Driver.pduOp, Dmr.Driver.pduArgsOp]
